@@ -31,7 +31,19 @@ Definition int_bytes_ok (c : list cell) : bool :=
   bt_internal_header + bt_slot_size * count c + sum_len int_cell_len c <=? bt_page_size.
 
 (* in-order list of (page id, cells, right sibling) of the leaves, plus the ids of the internal pages *)
-Fixpoint walk (fuel : nat) (h : heap) (p : N) (lo hi : option key) : option (list (N * list cell * N) * list N) :=
+Definition walk_res := option (list (N * list cell * N) * list N).
+(* children of an internal page: `child` covers [lo', first separator of cs), the rest follow *)
+Fixpoint kids_walk (W : N -> option key -> option key -> walk_res) (hi : option key)
+                   (child : N) (lo' : option key) (cs : list cell) : walk_res :=
+  match cs with
+  | [] => W child lo' hi
+  | (sep, next_child) :: t =>
+      match W child lo' (Some sep), kids_walk W hi next_child (Some sep) t with
+      | Some (a, ia), Some (b, ib) => Some (a ++ b, ia ++ ib)
+      | _, _ => None
+      end
+  end.
+Fixpoint walk (fuel : nat) (h : heap) (p : N) (lo hi : option key) : walk_res :=
   match fuel with
   | O => None
   | S f =>
@@ -40,17 +52,10 @@ Fixpoint walk (fuel : nat) (h : heap) (p : N) (lo hi : option key) : option (lis
           if sorted_strictb c && in_bounds lo hi c && leaf_bytes_ok c d then Some ([(p, c, r)], []) else None
       | Some (Internal lm cells) =>
           if sorted_strictb cells && in_bounds lo hi cells && int_bytes_ok cells then
-            let r :=
-              (fix kids (child : N) (lo' : option key) (cs : list cell) : option (list (N * list cell * N) * list N) :=
-                 match cs with
-                 | [] => walk f h child lo' hi
-                 | (sep, next_child) :: t =>
-                     match walk f h child lo' (Some sep), kids next_child (Some sep) t with
-                     | Some (a, ia), Some (b, ib) => Some (a ++ b, ia ++ ib)
-                     | _, _ => None
-                     end
-                 end) lm lo cells in
-            match r with Some (ls, is) => Some (ls, p :: is) | None => None end
+            match kids_walk (walk f h) hi lm lo cells with
+            | Some (ls, is) => Some (ls, p :: is)
+            | None => None
+            end
           else None
       | None => None
       end
